@@ -15,8 +15,11 @@ R15.1 crossing rule in the compiled source (``_shared/geometry.pyx``, the
 R15.2 wrappers: x/y columns reach the x/y parameters of the compiled routine
       consistently on the whole chain Filter.update -> PolygonFilter.filter
       -> measure.points_in_poly -> pnpoly.points_in_poly -> _points_in_poly
-      -> points_in_polygon -> point_in_polygon; inversion is applied to the
-      returned mask exactly when ``self.inverted``.
+      -> points_in_polygon -> point_in_polygon; the buffer that carries both
+      coordinate columns is float64 whatever the input dtypes are (a store
+      into a narrower buffer truncates before the per-column cast to double
+      downstream); inversion is applied to the returned mask exactly when
+      ``self.inverted``.
 R15.3 persistence: every key written by ``save`` is dispatched by ``_load``
       (and vice versa), values return to the attribute they were taken from,
       the header id and point index are parsed by the inverse expression,
@@ -865,14 +868,24 @@ def r152(ctx, repo):
                     s.elts[1], ast.Constant):
                 cols[s.elts[1].value] = n.value
     alloc = single_assign(filt, pts.id)
-    if len(alloc) == 1 and isinstance(alloc[0], ast.Call) and call_name(
-            alloc[0]) in ("np.column_stack", "np.stack", "np.array",
-                          "np.transpose", "np.vstack") and not cols:
-        # stacked form: np.column_stack((datax, datay))
-        arg = alloc[0].args[0] if alloc[0].args else None
-        if isinstance(arg, (ast.Tuple, ast.List)) and len(arg.elts) == 2 \
-                and call_name(alloc[0]) == "np.column_stack":
-            cols = {0: arg.elts[0], 1: arg.elts[1]}
+    if len(alloc) != 1:
+        raise AnalysisError("PolygonFilter.filter: the point array is bound "
+                            "more than once")
+    dt_ok, dt_why = None, None
+    if cols:
+        dt_ok, dt_why = _buffer_dtype(alloc[0], {DX, DY})
+    else:
+        st = _stacked(alloc[0])
+        if st is not None:
+            cols = {0: st[0], 1: st[1]}
+            if st[2] is None:
+                dt_ok = True
+                dt_why = ("stacking promotes both inputs to a common type "
+                          "(no value is narrowed) before the per-column "
+                          "conversion to double")
+            else:
+                dt_ok = _is_f64(st[2])
+                dt_why = (f"the stacked array is cast to {txt(st[2])}")
     if set(cols) != {0, 1}:
         raise AnalysisError("PolygonFilter.filter: construction of the "
                             "(N, 2) point array not recognised")
@@ -882,6 +895,14 @@ def r152(ctx, repo):
            else f"point columns are filled from ({txt(cols[0])}, "
            f"{txt(cols[1])}), expected ({DX}, {DY})", node=call,
            label="filter columns")
+    ctx.ob("R15.2", bool(dt_ok),
+           "the buffer that carries both coordinate columns is float64 "
+           f"whatever the input dtypes are ({dt_why})" if dt_ok else
+           f"the buffer that carries both coordinate columns is not float64 "
+           f"independent of the inputs: {dt_why} – storing the y values "
+           "(or a float64 x) into it truncates / rounds them before the "
+           "containment test (e.g. `index` as x axis: y cast to int)",
+           node=alloc[0], label="filter buffer float64")
     _inversion(ctx, filt, call)
 
     # PolygonFilter.point_in_poly uses the same routine
@@ -932,6 +953,84 @@ def r152(ctx, repo):
            if got == (0, 1) else
            f"the dataset filter passes axes {got} as (x, y)",
            node=calls[0], label="update axes order")
+
+
+F64 = ("np.float64", "float", "np.double", "np.float_", "numpy.float64",
+       "'float64'", "'f8'", "'d'", "'float'", "'double'", "np.longdouble")
+
+
+def _is_f64(e):
+    return e is not None and txt(e) in F64
+
+
+def _buffer_dtype(alloc, inputs):
+    """(ok, reason): is the pre-allocated (N, 2) buffer float64 whatever the
+    inputs are?"""
+    if not isinstance(alloc, ast.Call):
+        raise AnalysisError("PolygonFilter.filter: allocation of the point "
+                            "array not recognised")
+    n = (call_name(alloc) or "").split(".")
+    if len(n) != 2 or n[0] not in ("np", "numpy"):
+        raise AnalysisError("PolygonFilter.filter: allocation "
+                            f"`{short(alloc, 40)}` not recognised")
+    leaf = n[1]
+    if leaf in ("zeros", "empty", "ones"):
+        dt = kwarg(alloc, "dtype", 1)
+        if dt is None:
+            return True, f"np.{leaf} defaults to float64"
+    elif leaf == "full":
+        dt = kwarg(alloc, "dtype", 2)
+        if dt is None:
+            return False, (f"`{short(alloc, 40)}` takes the dtype of the "
+                           "fill value")
+    elif leaf in ("zeros_like", "empty_like", "ones_like", "full_like"):
+        dt = kwarg(alloc, "dtype", 2 if leaf == "full_like" else 1)
+        if dt is None:
+            return False, (f"`{short(alloc, 50)}` inherits the dtype of "
+                           f"`{short(alloc.args[0], 20) if alloc.args else '?'}`")
+    else:
+        raise AnalysisError("PolygonFilter.filter: allocation "
+                            f"`{short(alloc, 40)}` not recognised")
+    if _is_f64(dt):
+        return True, f"allocated with dtype={txt(dt)}"
+    if names_in(dt) & inputs or ".dtype" in txt(dt):
+        return False, f"dtype={txt(dt)} depends on an input array"
+    return False, f"dtype={txt(dt)} is not float64"
+
+
+def _stacked(e):
+    """(col0, col1, cast dtype or None) for np.column_stack((a, b)),
+    np.stack((a, b), axis=1|-1), np.vstack((a, b)).T / np.array([a, b]).T,
+    each optionally followed by .astype(<dtype>)"""
+    cast = None
+    if isinstance(e, ast.Call) and last_attr(e) == "astype" and isinstance(
+            e.func, ast.Attribute) and e.args:
+        cast = e.args[0]
+        e = e.func.value
+    transposed = False
+    if isinstance(e, ast.Attribute) and e.attr == "T":
+        transposed = True
+        e = e.value
+    if not isinstance(e, ast.Call) or not e.args:
+        return None
+    n = call_name(e)
+    arg = e.args[0]
+    if not (isinstance(arg, (ast.Tuple, ast.List)) and len(arg.elts) == 2):
+        return None
+    ok = False
+    if n == "np.column_stack" and not transposed:
+        ok = True
+    elif n == "np.stack" and not transposed:
+        ax = kwarg(e, "axis", 1)
+        ok = ax is not None and txt(ax) in ("1", "-1")
+    elif n in ("np.vstack", "np.array", "np.stack") and transposed:
+        ok = n != "np.array" or kwarg(e, "dtype", 1) is None
+        if n == "np.stack":
+            ax = kwarg(e, "axis", 1)
+            ok = ax is None or txt(ax) == "0"
+    if not ok:
+        return None
+    return arg.elts[0], arg.elts[1], cast
 
 
 def single_assign_loose(func, name):
@@ -1495,8 +1594,8 @@ def run(ctx):
              "function, documented boundary convention, guarded division, "
              "cyclic edge enumeration, parity", minimum=7)
     ctx.rule("R15.2", "x/y columns and counts reach the compiled routine "
-             "consistently through every wrapper; inversion iff "
-             "self.inverted", minimum=16)
+             "consistently through every wrapper in a float64 buffer; "
+             "inversion iff self.inverted", minimum=17)
     ctx.rule("R15.3", "save/_load agree on keys, attribute mapping, header "
              "and index parsing, first-'=' split; >= 17 significant digits",
              minimum=25)
@@ -1580,6 +1679,23 @@ MUTANTS = [
      [("        points[:, 0] = datax\n", "        points[:, 0] = datay\n"),
       ("        points[:, 1] = datay\n", "        points[:, 1] = datax\n")],
      "R15.2"),
+    ("point buffer inherits the dtype of the x axis", POLY,
+     ("        points = np.zeros((datax.shape[0], 2), dtype=np.float64)\n",
+      "        points = np.zeros_like(datax, shape=(datax.shape[0], 2))\n"),
+     "R15.2"),
+    ("point buffer allocated with the x dtype", POLY,
+     ("        points = np.zeros((datax.shape[0], 2), dtype=np.float64)\n",
+      "        points = np.zeros((datax.shape[0], 2), dtype=datax.dtype)\n"),
+     "R15.2"),
+    ("point buffer in single precision", POLY,
+     ("        points = np.zeros((datax.shape[0], 2), dtype=np.float64)\n",
+      "        points = np.zeros((datax.shape[0], 2), dtype=np.float32)\n"),
+     "R15.2"),
+    ("stacked points cast to single precision", POLY,
+     ("        points = np.zeros((datax.shape[0], 2), dtype=np.float64)\n"
+      "        points[:, 0] = datax\n        points[:, 1] = datay\n",
+      "        points = np.column_stack([datax, datay]).astype(np.float32)\n"
+      ), "R15.2"),
     ("inversion result discarded", POLY,
      ("            np.invert(f, f)\n", "            np.invert(f)\n"),
      "R15.2"),
@@ -1654,6 +1770,14 @@ TWINS = [
                          "            if x < xp[i] + (y - ya) * (xp[j] - xp[i])"
                          " / (yb - ya):\n"
                          "                c = not c\n")),
+    ("point buffer via np.empty with dtype=float", POLY,
+     ("        points = np.zeros((datax.shape[0], 2), dtype=np.float64)\n",
+      "        points = np.empty((datax.shape[0], 2), dtype=float)\n")),
+    ("points stacked and cast to float64", POLY,
+     ("        points = np.zeros((datax.shape[0], 2), dtype=np.float64)\n"
+      "        points[:, 0] = datax\n        points[:, 1] = datay\n",
+      "        points = np.column_stack([datax, datay]).astype(np.float64)\n"
+      )),
     ("filter returns the complement by expression", POLY,
      ("            np.invert(f, f)\n", "            f = ~f\n")),
     ("save with f-strings", POLY,
